@@ -4,7 +4,7 @@
    TYPE names and the JSIGHT-first rule, for every catalog state and position.  All 23 classes
    are injected at random sites of random valid documents on every run and checked against the
    injector's expectation and against the extracted model (message, file, index, line, column). *)
-From JS Require Import Base Bytes Scanner Directive Core Expand Catalog C03Proofs.
+From JS Require Import Base Bytes Scanner Directive Core Expand Catalog C03Proofs C03Faults.
 From JS Require DirectiveTables ErrConsts.
 
 Theorem C03_duplicate_operation_id :
@@ -43,7 +43,202 @@ Theorem C03_jsight_must_be_first :
               e_index e = co_begin (d_kw d) /\ m_args (e_msg e) = [str ErrConsts.jerr_DirectiveJSIGHTShouldBeTheFirst].
 Proof. exact jsight_must_be_first. Qed.
 
+(* ---- further fault classes (Proofs/C03Faults.v); refused_with / refused_required: an error located on
+   the directive itself (file and keyword index) with the plain message / the required-parameter message ---- *)
+Theorem C03_repeated_jsight :
+  forall banned, (forall d, existsb (N.eqb (d_kind d)) banned = false) ->
+  forall c d anc,
+    d_kind d = DirectiveTables.dir_Jsight -> named d KVersion = str "0.3" -> d_annot d = [] -> c_jsight c <> [] ->
+    refused_with (add_directive banned c d anc) d ErrConsts.jerr_DirectiveJSIGHTGottaBeOnlyOneTime.
+Proof. exact repeated_jsight. Qed.
+
+Theorem C03_second_info :
+  forall banned, (forall d, existsb (N.eqb (d_kind d)) banned = false) ->
+  forall c d anc i,
+    d_kind d = DirectiveTables.dir_Info -> d_named d = [] -> d_annot d = [] -> c_info c = Some i ->
+    refused_with (add_directive banned c d anc) d ErrConsts.jerr_DirectiveINFOGottaBeOnlyOneTime.
+Proof. exact second_info. Qed.
+
+Theorem C03_second_title :
+  forall banned, (forall d, existsb (N.eqb (d_kind d)) banned = false) ->
+  forall c d anc i,
+    d_kind d = DirectiveTables.dir_Title -> named d KTitle <> [] -> d_annot d = [] -> c_info c = Some i -> in_title i <> [] ->
+    refused_with (add_directive banned c d anc) d ErrConsts.jerr_NotUniqueDirective.
+Proof. exact second_title. Qed.
+
+Theorem C03_second_version :
+  forall banned, (forall d, existsb (N.eqb (d_kind d)) banned = false) ->
+  forall c d anc i,
+    d_kind d = DirectiveTables.dir_Version -> named d KVersion <> [] -> d_annot d = [] -> c_info c = Some i -> in_version i <> [] ->
+    refused_with (add_directive banned c d anc) d ErrConsts.jerr_NotUniqueDirective.
+Proof. exact second_version. Qed.
+
+Theorem C03_second_base_url :
+  forall banned, (forall d, existsb (N.eqb (d_kind d)) banned = false) ->
+  forall c d srv rest sn sa b,
+    d_kind d = DirectiveTables.dir_BaseURL -> named d KPath <> [] -> d_annot d = [] ->
+    List.find (fun s => beq (fst (fst s)) (named srv KName)) (c_servers c) = Some (sn, sa, b) -> b <> [] ->
+    refused_with (add_directive banned c d (srv :: rest)) d ErrConsts.jerr_DirectiveBaseURLAlreadyDefined.
+Proof. exact second_base_url. Qed.
+
+Theorem C03_second_query :
+  forall banned, (forall d, existsb (N.eqb (d_kind d)) banned = false) ->
+  forall c d anc id m p h q,
+    d_kind d = DirectiveTables.dir_Query -> d_annot d = [] -> has_body d = true ->
+    http_id d anc = inl (id, m, p) -> find_http c id = Some h -> hi_query h = Some q ->
+    refused_with (add_directive banned c d anc) d ErrConsts.jerr_NotUniqueDirective.
+Proof. exact second_query. Qed.
+
+Theorem C03_second_request_headers :
+  forall banned, (forall d, existsb (N.eqb (d_kind d)) banned = false) ->
+  forall c d p rest id m pa h r x,
+    d_kind d = DirectiveTables.dir_Headers -> d_annot d = [] -> has_body d = true ->
+    d_kind p = DirectiveTables.dir_Request ->
+    http_id d (p :: rest) = inl (id, m, pa) -> find_http c id = Some h -> hi_request h = Some r -> rq_headers r = Some x ->
+    refused_with (add_directive banned c d (p :: rest)) d ErrConsts.jerr_NotUniqueDirective.
+Proof. exact second_request_headers. Qed.
+
+Theorem C03_second_response_headers :
+  forall banned, (forall d, existsb (N.eqb (d_kind d)) banned = false) ->
+  forall c d p rest id m pa h lastr before x,
+    d_kind d = DirectiveTables.dir_Headers -> d_annot d = [] -> has_body d = true ->
+    d_kind p = DirectiveTables.dir_HTTPResponseCode ->
+    http_id d (p :: rest) = inl (id, m, pa) -> find_http c id = Some h -> rev (hi_responses h) = lastr :: before -> rs_headers lastr = Some x ->
+    refused_with (add_directive banned c d (p :: rest)) d ErrConsts.jerr_NotUniqueDirective.
+Proof. exact second_response_headers. Qed.
+
+Theorem C03_second_protocol :
+  forall banned, (forall d, existsb (N.eqb (d_kind d)) banned = false) ->
+  forall c d p rest,
+    d_kind d = DirectiveTables.dir_Protocol -> d_annot d = [] -> named d KProtocolName = str "json-rpc-2.0" ->
+    existsb (fun x => N.eqb (co_file x) (co_file (d_kw p)) && (co_begin x =? co_begin (d_kw p))) (c_protocol_urls c) = true ->
+    refused_with (add_directive banned c d (p :: rest)) d ErrConsts.jerr_NotUniqueDirective.
+Proof. exact second_protocol. Qed.
+
+Theorem C03_second_params :
+  forall banned, (forall d, existsb (N.eqb (d_kind d)) banned = false) ->
+  forall c d anc id m p r,
+    d_kind d = DirectiveTables.dir_Params -> d_annot d = [] -> has_body d = true ->
+    rpc_id d anc = inl (id, m, p) -> find_rpc c id = Some r -> ri_params r = true ->
+    refused_with (add_directive banned c d anc) d ErrConsts.jerr_NotUniqueDirective.
+Proof. exact second_params. Qed.
+
+Theorem C03_second_result :
+  forall banned, (forall d, existsb (N.eqb (d_kind d)) banned = false) ->
+  forall c d anc id m p r,
+    d_kind d = DirectiveTables.dir_Result -> d_annot d = [] -> has_body d = true ->
+    rpc_id d anc = inl (id, m, p) -> find_rpc c id = Some r -> ri_result r = true ->
+    refused_with (add_directive banned c d anc) d ErrConsts.jerr_NotUniqueDirective.
+Proof. exact second_result. Qed.
+
+Theorem C03_duplicate_http_interaction :
+  forall banned, (forall d, existsb (N.eqb (d_kind d)) banned = false) ->
+  forall c d anc c1 pp id m p x,
+    is_method (d_kind d) = true -> check_paths c d anc = inl (c1, pp) -> http_id d anc = inl (id, m, p) ->
+    find_inter (c_inters c1) id = Some x ->
+    exists e, add_directive banned c d anc = CErr e /\ e_file e = co_file (d_kw d) /\ e_index e = co_begin (d_kw d) /\
+              e_msg e = mkMsg "%s %q" [str ErrConsts.jerr_MethodIsAlreadyDefinedInResource; id].
+Proof. exact duplicate_http_interaction. Qed.
+
+Theorem C03_duplicate_rpc_method :
+  forall banned, (forall d, existsb (N.eqb (d_kind d)) banned = false) ->
+  forall c d p rest id m pa x,
+    d_kind d = DirectiveTables.dir_Method -> named d KMethodName <> [] ->
+    existsb (fun x => N.eqb (d_kind x) DirectiveTables.dir_Protocol) (d_children p) = true ->
+    rpc_id d (p :: rest) = inl (id, m, pa) -> find_inter (c_inters c) id = Some x ->
+    exists e, add_directive banned c d (p :: rest) = CErr e /\ e_file e = co_file (d_kw d) /\ e_index e = co_begin (d_kw d) /\
+              e_msg e = mkMsg "%s %q" [str ErrConsts.jerr_MethodIsAlreadyDefinedInResource; id].
+Proof. exact duplicate_rpc_method. Qed.
+
+Theorem C03_server_without_name :
+  forall banned, (forall d, existsb (N.eqb (d_kind d)) banned = false) ->
+  forall c d anc,
+    d_kind d = DirectiveTables.dir_Server -> named d KName = [] -> refused_required (add_directive banned c d anc) d "Name".
+Proof. exact server_without_name. Qed.
+
+Theorem C03_type_without_name :
+  forall banned, (forall d, existsb (N.eqb (d_kind d)) banned = false) ->
+  forall c d anc,
+    d_kind d = DirectiveTables.dir_Type -> named d KName = [] -> refused_required (add_directive banned c d anc) d "Name".
+Proof. exact type_without_name. Qed.
+
+Theorem C03_title_without_text :
+  forall banned, (forall d, existsb (N.eqb (d_kind d)) banned = false) ->
+  forall c d anc,
+    d_kind d = DirectiveTables.dir_Title -> named d KTitle = [] -> refused_required (add_directive banned c d anc) d "Title".
+Proof. exact title_without_text. Qed.
+
+Theorem C03_method_without_name :
+  forall banned, (forall d, existsb (N.eqb (d_kind d)) banned = false) ->
+  forall c d anc,
+    d_kind d = DirectiveTables.dir_Method -> named d KMethodName = [] -> refused_required (add_directive banned c d anc) d "MethodName".
+Proof. exact method_without_name. Qed.
+
+Theorem C03_operation_id_without_value :
+  forall banned, (forall d, existsb (N.eqb (d_kind d)) banned = false) ->
+  forall c d anc,
+    d_kind d = DirectiveTables.dir_OperationID -> named d KOperationId = [] -> refused_required (add_directive banned c d anc) d "OperationId".
+Proof. exact operation_id_without_value. Qed.
+
+Theorem C03_query_without_body :
+  forall banned, (forall d, existsb (N.eqb (d_kind d)) banned = false) ->
+  forall c d anc,
+    d_kind d = DirectiveTables.dir_Query -> d_annot d = [] -> has_body d = false ->
+    refused_with (add_directive banned c d anc) d ErrConsts.jerr_BodyIsEmpty.
+Proof. exact query_without_body. Qed.
+
+Theorem C03_headers_without_body :
+  forall banned, (forall d, existsb (N.eqb (d_kind d)) banned = false) ->
+  forall c d anc,
+    d_kind d = DirectiveTables.dir_Headers -> d_annot d = [] -> has_body d = false ->
+    refused_with (add_directive banned c d anc) d ErrConsts.jerr_BodyIsEmpty.
+Proof. exact headers_without_body. Qed.
+
+Theorem C03_params_or_result_without_body :
+  forall banned, (forall d, existsb (N.eqb (d_kind d)) banned = false) ->
+  forall c d anc,
+    (d_kind d = DirectiveTables.dir_Params \/ d_kind d = DirectiveTables.dir_Result) -> d_annot d = [] -> has_body d = false ->
+    refused_with (add_directive banned c d anc) d ErrConsts.jerr_BodyIsEmpty.
+Proof. exact params_or_result_without_body. Qed.
+
+Theorem C03_description_without_text :
+  forall banned, (forall d, existsb (N.eqb (d_kind d)) banned = false) ->
+  forall c d anc,
+    d_kind d = DirectiveTables.dir_Description -> d_annot d = [] -> has_body d = false ->
+    refused_with (add_directive banned c d anc) d ErrConsts.jerr_DescriptionIsEmpty.
+Proof. exact description_without_text. Qed.
+
+Theorem C03_forbidden_annotation :
+  forall banned, (forall d, existsb (N.eqb (d_kind d)) banned = false) ->
+  forall c d anc,
+    In (d_kind d) annot_free_kinds -> d_annot d <> [] -> (d_kind d = DirectiveTables.dir_Info -> d_named d = []) ->
+    refused_with (add_directive banned c d anc) d ErrConsts.jerr_AnnotationIsForbiddenForTheDirective.
+Proof. exact forbidden_annotation. Qed.
+
 Print Assumptions C03_duplicate_operation_id.
 Print Assumptions C03_duplicate_server.
 Print Assumptions C03_duplicate_type.
 Print Assumptions C03_jsight_must_be_first.
+Print Assumptions C03_repeated_jsight.
+Print Assumptions C03_second_info.
+Print Assumptions C03_second_title.
+Print Assumptions C03_second_version.
+Print Assumptions C03_second_base_url.
+Print Assumptions C03_second_query.
+Print Assumptions C03_second_request_headers.
+Print Assumptions C03_second_response_headers.
+Print Assumptions C03_second_protocol.
+Print Assumptions C03_second_params.
+Print Assumptions C03_second_result.
+Print Assumptions C03_duplicate_http_interaction.
+Print Assumptions C03_duplicate_rpc_method.
+Print Assumptions C03_server_without_name.
+Print Assumptions C03_type_without_name.
+Print Assumptions C03_title_without_text.
+Print Assumptions C03_method_without_name.
+Print Assumptions C03_operation_id_without_value.
+Print Assumptions C03_query_without_body.
+Print Assumptions C03_headers_without_body.
+Print Assumptions C03_params_or_result_without_body.
+Print Assumptions C03_description_without_text.
+Print Assumptions C03_forbidden_annotation.
